@@ -317,6 +317,17 @@ def jump_two_targets():
     )
 
 
+def jump_sibling_fanin(times=1):
+    """A -> B (side branch that depends on the jump target) ; A -> C (jumps back to A) ; D joins (B, C)."""
+    mk = lambda r: [("t", {"kind": "ok", "out": _loop_out(r, "A")})]  # noqa: E731
+    return Workload(
+        f"jump_sibling_fanin_t{times}",
+        [St("A", tasks=mk("A")), St("B", ("A",), tasks=mk("B")),
+         St("C", ("A",), tasks=[("t", {"kind": "jump", "target": "A", "times": times, "out": _loop_out("C", "A")})]),
+         St("D", ("B", "C"), tasks=mk("D"))],
+    )
+
+
 def jump_side_fanin(times=1, max_jumps=None):
     """P -> A -> B -> C(jumps to A); side branch P -> S ; J joins (C, S)."""
     wctx = {} if max_jumps is None else {"_max_jumps": max_jumps}
